@@ -595,4 +595,58 @@ theorem lookup_of_truthy {st : St N U} {k : Kind} {n : N} {u : U} (h : Truthy st
     lookup st k n = some u := by
   unfold lookup; unfold Truthy at h; rw [h]; rfl
 
+/-! ### the validated container re-flattens to `reOccs` -/
+
+theorem filter_const_true {α : Type} (l : List α) : l.filter (fun _ => true) = l := by
+  induction l with
+  | nil => rfl
+  | cons a t ih => simp [List.filter_cons, ih]
+
+theorem filter_map_nodeOccs (st : St N U) (nd : NodeRefs N U) :
+    ((nodeOccs nd).filter (fun o => inOutput o.site)).map (assignOcc st) =
+    nodeOccs { actions := nd.actions.map (fun a => (a.1, a.2.assign st a.1))
+               cases := nd.cases.map (fun r => r.assign st .group) } := by
+  simp [nodeOccs, List.filter_append, List.filter_map, List.map_append, Function.comp_def,
+    inOutput, assignOcc, assignable, Ref.assign, Occ.kind, Site.kind, filter_const_true]
+
+theorem filter_map_campaignOccs (st : St N U) (cp : CampaignC N U) :
+    ((campaignOccs cp).filter (fun o => inOutput o.site)).map (assignOcc st) =
+    campaignOccs { events := cp.events.map (fun e => { e with flow := e.flow.assign st .flow })
+                   group := cp.group.assign st .group } := by
+  simp [campaignOccs, List.filter_append, List.filter_map, List.map_append, Function.comp_def,
+    inOutput, assignOcc, assignable, Ref.assign, Occ.kind, Site.kind, filter_const_true]
+
+theorem filter_map_triggerOccs (st : St N U) (t : TriggerC N U) :
+    ((triggerOccs t).filter (fun o => inOutput o.site)).map (assignOcc st) =
+    triggerOccs { flow := t.flow.assign st .flow
+                  groups := t.groups.map (fun r => r.assign st .group)
+                  exclude := t.exclude.map (fun r => r.assign st .group) } := by
+  simp [triggerOccs, List.filter_append, List.filter_map, List.map_append, Function.comp_def,
+    inOutput, assignOcc, assignable, Ref.assign, Occ.kind, Site.kind, filter_const_true]
+
+theorem filter_map_flatMap {α : Type} (st : St N U) (l : List α) (f g : α → List (Occ N U))
+    (h : ∀ a, ((f a).filter (fun o => inOutput o.site)).map (assignOcc st) = g a) :
+    ((l.flatMap f).filter (fun o => inOutput o.site)).map (assignOcc st) = l.flatMap g := by
+  induction l with
+  | nil => rfl
+  | cons a t ih => simp [List.flatMap_cons, List.filter_append, h, ih]
+
+theorem occsOf_validated (st : St N U) (c : Container N U) :
+    occsOf (c.validated st) =
+      (groupList st).map (fun p => (⟨p.1, p.2, .groupList⟩ : Occ N U)) ++
+      ((occsOf c).filter (fun o => inOutput o.site)).map (assignOcc st) := by
+  unfold occsOf Container.validated
+  simp only [List.filter_append, List.map_append, List.append_assoc]
+  have e1 : ((c.groups.map (fun r => (⟨r.name, r.given, .groupList⟩ : Occ N U))).filter
+      (fun o => inOutput o.site)).map (assignOcc st) = [] := by
+    simp [List.filter_map, Function.comp_def, inOutput]
+  have e2 : ((c.flows.map (fun f => (⟨f.name, f.uuid, .flowDef⟩ : Occ N U))).filter
+      (fun o => inOutput o.site)).map (assignOcc st) =
+      c.flows.map (fun f => (⟨f.name, f.uuid, .flowDef⟩ : Occ N U)) := by
+    simp [List.filter_map, Function.comp_def, inOutput, assignOcc, assignable, filter_const_true]
+  rw [e1, e2]
+  rw [filter_map_flatMap st c.flows _ _ (fun f => filter_map_flatMap st f.nodes _ _ (filter_map_nodeOccs st))]
+  rw [filter_map_flatMap st c.campaigns _ _ (filter_map_campaignOccs st)]
+  rw [filter_map_flatMap st c.triggers _ _ (filter_map_triggerOccs st)]
+  simp [List.map_map, List.flatMap_map, Function.comp_def]
 end Rpft.Uuid
